@@ -14,4 +14,8 @@ macro_rules! end_reached {
 #[cfg(kani)]
 pub mod util;
 #[cfg(kani)]
+pub mod symbuf;
+#[cfg(kani)]
 pub mod gen;
+#[cfg(all(kani, feature = "fam_probe"))]
+pub mod probe;
